@@ -215,6 +215,19 @@ def abs_diff(first: Array, second: Array) -> Array:
     return abs_array(second - first)
 
 
+def subtract(first: ArrayLike, second: ArrayLike) -> Array:
+    """Return `first - second`; integer operands are widened before, such that the difference does not wrap around."""
+    return _widened_integers(make_array(first)) - _widened_integers(make_array(second))
+
+
+def _widened_integers(input_array: Array) -> Array:
+    # differences of unsigned or narrow integers wrap around in their own type (e.g. uint8: 3 - 5 = 254)
+    if not np.issubdtype(input_array.dtype, np.integer):
+        return input_array
+    is_uint64 = input_array.dtype.kind == "u" and input_array.dtype.itemsize == np.dtype(np.uint64).itemsize
+    return input_array.astype(float if is_uint64 else np.int64)
+
+
 def find_first_unequal(first: Array, second: Array) -> tuple | None:
     """Search for the first unequal pair of values in the given array."""
     try:
